@@ -48,7 +48,7 @@ Definition dec_case meth nsig (thr : option QcC) crit (amin N P NFFT : nat) (S :
   end.
 """
 
-PRE_F = """Require Import Spectrum.Theory.Ops Spectrum.Theory.Vec Spectrum.Theory.Dft Spectrum.Model.Eigen Spectrum.Instances.FloatC Spectrum.Instances.FloatTw.
+PRE_F = """Require Import Spectrum.Theory.Ops Spectrum.Theory.Vec Spectrum.Theory.Dft Spectrum.Model.Eigen Spectrum.Instances.QcC Spectrum.Instances.FloatC Spectrum.Instances.FloatTw.
 From Coq Require Import PrimFloat ZArith List.
 Local Open Scope float_scope.
 Definition rel_each (tol : float) (l1 l2 : list FloatC) : bool :=
@@ -237,6 +237,21 @@ def check_noiseless(x, P, K, NFFT, bins, method, sampling=1.0):
     bad = []
     psd, S = eigen(x, P, NSIG=K, NFFT=NFFT, method=method)
     psd = np.asarray(psd)
+    if method == 'ev' and np.any(np.asarray(S)[K:] == 0):
+        # genuine defect of the current code (see notes/design_updates/C17.md, D22): on exactly rank-deficient data LAPACK returns
+        # singular values that are exactly 0.0 and EV divides by them: abs(Z)**2/0 = inf (pseudo-spectrum 0) or 0/0 = nan.
+        # Every other EV clause fails for the same reason, so exactly this one key is reported for such an input.
+        ok = not np.isnan(psd).any() and np.all(psd > 0)
+        p = pev(x, P, NSIG=K, NFFT=NFFT, sampling=sampling); p()
+        cp = np.asarray(p.psd, dtype=float)
+        okc = not np.isnan(cp).any() and np.all(cp > 0)
+        what = 'EV divides by a singular value that is exactly 0 (S = %r): pseudo-spectrum has %d NaN and %d non-positive entries'
+        if not ok:
+            bad.append(('ev_zero_singular_value/eigen', what % (np.asarray(S).tolist(), int(np.isnan(psd).sum()), int(np.sum(psd <= 0)))))
+        if not okc:
+            bad.append(('ev_zero_singular_value/pev', what % (np.asarray(S).tolist(), int(np.isnan(cp).sum()), int(np.sum(cp <= 0)))))
+        if bad:
+            return bad
     bad += check_peaks_vector(psd, bins, NFFT, NFFT // 2, tag, 'eigen')
     # singular values
     S0 = np.linalg.svd(build_fb(x, P), compute_uv=False)
@@ -299,14 +314,16 @@ def check_pseudo_def(x, P, NFFT, method, kw, kwtag):
         psd, S = eigen(x, P, NFFT=NFFT, method=method, **kw)
     ns = int(tap.nsig)
     ref, S0, gap = pseudo_reference(x, P, ns, NFFT, method)
+    ref_music = ref if method == 'music' else pseudo_reference(x, P, ns, NFFT, 'music')[0]
     if gap < 1e-3:
         return None
     tag = '%s/%s/%s' % (method, kwtag, 'real' if real else 'complex')
     psd = np.asarray(psd)
     if len(psd) != NFFT:
         return [('axis_length/eigen/' + tag, 'length %d instead of %d' % (len(psd), NFFT))]
-    kap = max(1.0, P * float(np.max(ref)) * (S0[ns] / S0[-1] if method == 'ev' else 1.0) / (1.0 / S0[-1] if method == 'ev' else 1.0)) / max(gap, 1e-3)
-    if kap > 1e6:
+    # the reference and the implementation run the same LAPACK routine on (what should be) the same matrix; the error is that of the sums
+    kap = max(1.0, P * float(np.max(ref_music)) * ((P - ns) * S0[ns] / max(S0[-1], 1e-300) if method == 'ev' else 1.0))
+    if kap > 1e5:
         return None
     if not np.allclose(psd, ref, rtol=1e-9 * kap, atol=0):
         return [('pseudo_def/eigen/' + tag, 'pseudo-spectrum differs from its definition (max relative deviation %.3g)' % float(np.max(np.abs(psd / ref - 1))))]
@@ -588,6 +605,21 @@ def run(ctx):
                 bad = [('raises/%s/%s' % (m, 'real' if real else 'complex'), 'raised %r on a valid noiseless input' % e)]
             for key, what in bad:
                 ctx.violation(key, what, rep('noiseless', x, P=P, K=K, NFFT=NFFT, bins=bins, method=m, sampling=sampling))
+
+    # exactly representable noiseless data (exactly rank-deficient FB): constant, alternating, quarter-rate tones
+    n16 = np.arange(24)
+    for name, x, bins, K in (('constant', np.ones(24, dtype=complex), [0], 1), ('constant_c', np.full(24, 2.5 + 1j), [0], 1),
+                             ('alternating', ((-1.0) ** n16).astype(complex), [8], 1), ('quarter_c', 1j ** n16, [4], 1),
+                             ('quarter_real', np.cos(2 * np.pi * n16 / 4), [4, -4], 2), ('dc_plus_quarter', 1j ** n16 + 1, [4, 0], 2)):
+        for P in range(K + 1, 10):
+            for m in ('music', 'ev'):
+                ctx.count('search/exact_data/%s/%s' % (name, m)); ctx.case(('exact', name, P, m), nontrivial=True)
+                try:
+                    bad = check_noiseless(x, P, K, 16, bins, m, 1.0)
+                except Exception as e:
+                    bad = [('raises/%s/exact_data' % m, 'raised %r on a valid noiseless input' % e)]
+                for key, what in bad:
+                    ctx.violation(key, what, rep('noiseless', x, P=P, K=K, NFFT=16, bins=bins, method=m, sampling=1.0))
 
     for it in range(ctx.q(40, 300)):
         cplx = bool(rng.integers(0, 2)); P = int(rng.integers(2, 13)); N = int(rng.integers(2 * P, 100)); NFFT = int(rng.integers(P, 80))
